@@ -125,8 +125,35 @@ def run(ctx):
         dty = [x for x in o["log"] if x[0] == "alloc_dtype_from_argument"]
         ctx.ob("C08.vanloan.alloc_dtype" + sfx, "f", not dty, "stub-log", 0.0, "work matrix allocated as float64 independently of the arguments' dtypes" + pc,
                cex=None if not dty else dict(allocation=dty), native=None if not dty else _native_dtype(py))
+    _composition_lemma(ctx)
     _joint(ctx, py)
     _standin(ctx, py)
+
+
+def _composition_lemma(ctx):
+    """Lemma over the contract of compute_process_matrices: from the semigroup law of expm for the block-triangular Van Loan
+    matrix (assumed) and E22 = E11^-T (lower-right block is exp(-F^T dt)), the returned pair composes:
+    Phi(s+t) = Phi(t) Phi(s),  Qd(s+t) = Phi(t) Qd(s) Phi(t)^T + Qd(t)."""
+    t0 = time.time()
+    c = WCtx()
+    n = Dim("n")
+    c.dim_assumptions = [n.v >= 1]
+    L = {}
+    for tag in ("s", "t"):
+        for b in ("E11", "E12", "E22"):
+            L[b + tag] = c.letter(b + tag, n, n)
+        # E22 = E11^-T
+        c.add_rule(L["E22" + tag] @ L["E11" + tag].T, identity(n))
+        c.add_rule(L["E11" + tag].T @ L["E22" + tag], identity(n))
+    # blocks of E(t) E(s) (upper block-triangular product)
+    E11 = L["E11t"] @ L["E11s"]
+    E12 = L["E11t"] @ L["E12s"] + L["E12t"] @ L["E22s"]
+    phi = lambda tag: L["E11" + tag]
+    qd = lambda tag: L["E12" + tag] @ L["E11" + tag].T
+    ok_phi = E11.equals(phi("t") @ phi("s"))
+    ok_qd = (E12 @ E11.T).equals(phi("t") @ qd("s") @ phi("t").T + qd("t"))
+    ctx.ob("C08.composition.lemma", "e", ok_phi and ok_qd, "word-nf", time.time() - t0,
+           "with E(s+t) = E(t) E(s) (semigroup, assumed) and E22 = E11^-T: the results (E11, E12 E11^T) satisfy Phi(s+t) = Phi(t) Phi(s) and Qd(s+t) = Phi(t) Qd(s) Phi(t)^T + Qd(t) for all sizes")
 
 
 # -----------------------------------------------------------------------------------------------
